@@ -264,6 +264,12 @@ def parse_args(args: List[str]) -> Tuple[ArgumentParser, Namespace]:
 
 def main():
     parser, args = parse_args(sys.argv[1:])
+    # BIP44 address index is not hardened - END is exclusive, so interval
+    # ending above 2**31 would generate rows with hardened address index
+    if args.interval[1] > 2 ** 31:
+        parser.error(
+            "Address index interval has to end at or below {}".format(2 ** 31)
+        )
 
     if args.command == "new":
         wallet = PaperWallet.new_wallet(
